@@ -465,6 +465,17 @@ func implIf(v ssa.Value, val bool, depth int) *ssa.If {
 // when inclusive) and returns every instruction reachable without executing an
 // instruction for which stop returns true (stop instructions themselves are not
 // included and cut the path).
+// exploreSkipEdge, when set, removes control-flow edges from explore's view (a rule that regards one
+// outcome of a test as out of scope sets it for the duration of one exploration).
+var exploreSkipEdge func(from, to *ssa.BasicBlock) bool
+
+func exploreWithout(skip func(from, to *ssa.BasicBlock) bool, start ssa.Instruction, inclusive bool, stop func(ssa.Instruction) bool) map[ssa.Instruction]bool {
+	old := exploreSkipEdge
+	exploreSkipEdge = skip
+	defer func() { exploreSkipEdge = old }()
+	return explore(start, inclusive, stop)
+}
+
 func explore(start ssa.Instruction, inclusive bool, stop func(ssa.Instruction) bool) map[ssa.Instruction]bool {
 	reached := map[ssa.Instruction]bool{}
 	if !inlineAware || curProgram == nil {
@@ -496,6 +507,9 @@ func explore(start ssa.Instruction, inclusive bool, stop func(ssa.Instruction) b
 				}
 			}
 			for _, s := range succs {
+				if exploreSkipEdge != nil && exploreSkipEdge(b, s) {
+					continue
+				}
 				key := visitKey{s, nil}
 				if _, flagged := flagTestOnEdge(s, b); flagged {
 					key.pred = b
@@ -635,6 +649,9 @@ func explore(start ssa.Instruction, inclusive bool, stop func(ssa.Instruction) b
 			}
 		}
 		for _, s := range succs {
+			if exploreSkipEdge != nil && exploreSkipEdge(b, s) {
+				continue
+			}
 			if !visited[s] {
 				visited[s] = true
 				walk(s, 0, env, visited)
